@@ -104,14 +104,16 @@ def layout(toks, rng, mode, units=False):
     elif mode == "unicode":
         lead = rng.choice(["", blank_run(rng)])
         trail = rng.choice(["", blank_run(rng)])
+    if mode in ("random", "unicode") and rng.random() < 0.3:
+        toks = [("**" if t == "^" else t) for t in toks]        # the other spelling of the power operator
     for i, tk in enumerate(toks):
         if i:
             a = toks[i - 1]
             required = a in ("+", "-", "to") or tk in ("+", "-", "to")
-            if units and (a in "*/^" or tk in "*/^"):
+            if units and (a in ("*", "/", "^", "**") or tk in ("*", "/", "^", "**")):
                 required = True
             tight_ok = not required
-            binary = a in ("+", "-", "*", "/", "^", "to") or tk in ("+", "-", "*", "/", "^", "to")
+            binary = a in ("+", "-", "*", "/", "^", "**", "to") or tk in ("+", "-", "*", "/", "^", "**", "to")
             if mode == "single":
                 out.append(" " if binary else "")
             elif mode == "tight":
